@@ -39,6 +39,8 @@ class ParameterItem(EFLRItem, DimensionedItem):
     def _run_checks_and_set_defaults(self) -> None:
         """Set default values of some attributes if no values have been set so far."""
 
+        self._forget_derived_dimension()
+
         if self.values.value is not None:
             if self.zones.value is not None:
                 if (nv := len(self.values.value)) != (nz := self.zones.count):
